@@ -18,11 +18,20 @@
 // by name before, between and after the sorting columns: rows whose values do
 // not sit at the index of their column.
 //
+// The sorting columns are of every orderable kind of column (types.go): a key
+// is a tuple of integers, a column of kind K holds their image under a strictly
+// increasing map into the values of K spread over the whole width of the type.
+//
+// The inputs of MergeRowGroups are also row groups built from the inputs of the
+// case (nested.go): merged, merged and deduplicated, MultiRowGroup,
+// ConvertRowGroup wrappers, row groups of a wider schema, one to three levels.
+//
 // The property predicate (sorted by the comparator, multiset = union of the
 // inputs with whole rows intact, each input's rows in their original order;
 // with dedupe one row per distinct key, each a row of an input) is evaluated
 // on Go's output in every kind, with a comparator written here (not the
-// library's).
+// library's) on the Go values decoded from the output rows, in the order the
+// parquet format gives their type.
 package main
 
 import (
@@ -47,6 +56,10 @@ type c09Col struct {
 	Desc       bool `json:"desc,omitempty"`
 	NullsFirst bool `json:"nulls_first,omitempty"`
 	Optional   bool `json:"optional,omitempty"`
+	// the kind of the column (types.go); "" = INT(64) holding the ordinal itself.
+	// A column of kind Type holds emb(ordinal - Bias).
+	Type string `json:"type,omitempty"`
+	Bias int64  `json:"bias,omitempty"`
 }
 
 // a key: one entry per sorting column, nil = null
@@ -72,6 +85,7 @@ type c09Case struct {
 	PageBuf   int        `json:"page_buf,omitempty"` // groups: PageBufferSize of the input files
 	Dedupe    bool       `json:"dedupe,omitempty"`
 	NoRefine  bool       `json:"no_refine,omitempty"` // groups: VerifSetDisableMergeRefinement(true)
+	Tree      []c09Node  `json:"tree,omitempty"`      // groups: the inputs of the merge as a forest over Inputs (nested.go); nil = the inputs themselves
 	Note      string     `json:"note,omitempty"`
 }
 
@@ -122,6 +136,39 @@ func c09Cmp(cols []c09Col, a, b c09Key) int {
 		}
 	}
 	return 0
+}
+
+// c09CmpOut compares two output rows: the columns of a kind other than the
+// default by the values decoded from the rows, in the order of their type.
+func c09CmpOut(cols []c09Col, a, b *c09Out) int {
+	for j, col := range cols {
+		x, y := a.Key[j], b.Key[j]
+		if x != nil && y != nil && col.typed() && a.TV != nil && b.TV != nil {
+			c := c09CmpTV(c09KindOf(col.Type).order, a.TV[j], b.TV[j])
+			if col.Desc {
+				c = -c
+			}
+			if c != 0 {
+				return c
+			}
+			continue
+		}
+		if c := c09CmpCol(col, x, y); c != 0 {
+			return c
+		}
+	}
+	return 0
+}
+
+// c09OutKeyText: the key of an output row, with the decoded values of the columns of a kind other than the default
+func c09OutKeyText(cols []c09Col, o *c09Out) string {
+	t := c09KeyTok(o.Key)
+	for j, col := range cols {
+		if col.typed() && o.TV != nil && o.Key[j] != nil {
+			t += fmt.Sprintf(" [column %d %s = %s]", j, col.Type, c09TVString(c09KindOf(col.Type).order, o.TV[j]))
+		}
+	}
+	return t
 }
 
 func c09KeyEq(a, b c09Key) bool {
@@ -413,11 +460,17 @@ func c09NewSchema(cols []c09Col, extras []c09Extra, extraSeed int64) *c09Schema 
 	for j, col := range cols {
 		name := fmt.Sprintf("k%d", j)
 		f := c09Field{name: name, role: c09RoleKey, idx: j, leaves: []c09LeafDef{{path: []string{name}}}}
+		f.node = parquet.Int(64)
+		if col.typed() {
+			if k := c09KindOf(col.Type); k != nil {
+				f.node = k.node()
+			} else {
+				s.bad = fmt.Sprintf("unknown kind %q of sorting column %d", col.Type, j)
+			}
+		}
 		if col.Optional {
-			f.node = parquet.Optional(parquet.Int(64))
+			f.node = parquet.Optional(f.node)
 			f.leaves[0].maxDef = 1
-		} else {
-			f.node = parquet.Int(64)
 		}
 		s.fields = append(s.fields, f)
 		var sc parquet.SortingColumn
@@ -498,13 +551,18 @@ func (s *c09Schema) row(key c09Key, in, seq int) parquet.Row {
 		switch f.role {
 		case c09RoleKey:
 			col, k := s.cols[f.idx], key[f.idx]
+			def := 0
+			if col.Optional {
+				def = 1
+			}
 			switch {
 			case col.Optional && k == nil:
 				row = append(row, parquet.NullValue().Level(0, 0, ci))
-			case col.Optional:
-				row = append(row, parquet.Int64Value(*k).Level(0, 1, ci))
+			case col.typed():
+				kd := c09KindOf(col.Type)
+				row = append(row, kd.val(c09KeyTV(col, kd, *k, in, seq)).Level(0, def, ci))
 			default:
-				row = append(row, parquet.Int64Value(*k).Level(0, 0, ci))
+				row = append(row, parquet.Int64Value(*k).Level(0, def, ci))
 			}
 		case c09RoleIn:
 			row = append(row, parquet.Int64Value(int64(in)).Level(0, 0, ci))
@@ -544,7 +602,8 @@ func c09Tag(in, seq int, key c09Key) string { return fmt.Sprintf("%d:%d:%s", in,
 // an output row decoded: identity and key as found in the row
 type c09Out struct {
 	In, Seq int
-	Key     c09Key
+	Key     c09Key  // the ordinals
+	TV      []c09TV // the decoded values of the sorting columns of a kind other than the default (nil when there is none)
 	Bad     string
 }
 
@@ -576,10 +635,29 @@ func (s *c09Schema) decode(row parquet.Row) c09Out {
 		if !ok {
 			return o
 		}
-		if !v.IsNull() {
-			x := v.Int64()
-			o.Key[j] = &x
+		if v.IsNull() {
+			continue
 		}
+		if col := s.cols[j]; col.typed() {
+			kd := c09KindOf(col.Type)
+			if v.Kind() != kd.phys {
+				o.Bad = fmt.Sprintf("sorting column %d (%s) holds a value of kind %v: %v", j, col.Type, v.Kind(), row)
+				return o
+			}
+			if o.TV == nil {
+				o.TV = make([]c09TV, len(s.cols))
+			}
+			o.TV[j] = kd.read(v)
+			x, ok := c09Unembed(col, kd, o.TV[j])
+			if !ok {
+				o.Bad = fmt.Sprintf("sorting column %d (%s) holds %s, which no input row holds: %v", j, col.Type, c09TVString(kd.order, o.TV[j]), row)
+				return o
+			}
+			o.Key[j] = &x
+			continue
+		}
+		x := v.Int64()
+		o.Key[j] = &x
 	}
 	vin, ok1 := one(s.inLeaf, "p_in")
 	vseq, ok2 := one(s.seqLeaf, "p_seq")
@@ -596,6 +674,17 @@ func (s *c09Schema) decode(row parquet.Row) c09Out {
 	if want := c09Tag(o.In, o.Seq, o.Key); tag != want {
 		o.Bad = fmt.Sprintf("the payload of the row is %q, the row written was %q", tag, want)
 		return o
+	}
+	// the key values are, bit for bit, the ones written in that row (the sign of a zero included)
+	for j, col := range s.cols {
+		if o.TV == nil || !col.typed() || o.Key[j] == nil {
+			continue
+		}
+		kd := c09KindOf(col.Type)
+		if want := c09KeyTV(col, kd, *o.Key[j], o.In, o.Seq); !c09SameTV(kd.order, want, o.TV[j]) {
+			o.Bad = fmt.Sprintf("sorting column %d (%s) of row %d of input %d holds %s, the row written held %s", j, col.Type, o.Seq, o.In, c09TVString(kd.order, o.TV[j]), c09TVString(kd.order, want))
+			return o
+		}
 	}
 	for _, f := range s.fields {
 		if f.role != c09RoleExtra {
@@ -748,6 +837,13 @@ func c09BatchesTok(bs [][]c09Out) string {
 // c09Predicate evaluates the statement of C09 on an output sequence.  Returns
 // (class, what) of the first failure, or "".
 func c09Predicate(cs *c09Case, out []c09Out, dedupe bool) (string, string) {
+	return c09PredicateOn(cs, out, dedupe, nil, nil)
+}
+
+// c09PredicateOn: the same for a merge whose inputs are built from some of the inputs of the case
+// (member, nil = all) and must deliver the keys `expected` (nil = the keys of the inputs; for nested
+// inputs that drop duplicates themselves the keys their rows must carry, see c09NodeKeys).
+func c09PredicateOn(cs *c09Case, out []c09Out, dedupe bool, member []bool, expected []c09Key) (string, string) {
 	total := 0
 	for _, in := range cs.Inputs {
 		total += len(in)
@@ -767,6 +863,9 @@ func c09Predicate(cs *c09Case, out []c09Out, dedupe bool) (string, string) {
 		if o.In < 0 || o.In >= len(cs.Inputs) || o.Seq < 0 || o.Seq >= len(cs.Inputs[o.In]) {
 			return "row-mangled", fmt.Sprintf("output row %d claims to be row %d of input %d, which does not exist", p, o.Seq, o.In)
 		}
+		if member != nil && !member[o.In] {
+			return "row-mangled", fmt.Sprintf("output row %d is row %d of input %d, which is not an input of this merge", p, o.Seq, o.In)
+		}
 		if !c09KeyEq(o.Key, cs.Inputs[o.In][o.Seq]) {
 			return "row-mangled", fmt.Sprintf("output row %d is row %d of input %d but its key is %s instead of %s", p, o.Seq, o.In, c09KeyTok(o.Key), c09KeyTok(cs.Inputs[o.In][o.Seq]))
 		}
@@ -775,9 +874,9 @@ func c09Predicate(cs *c09Case, out []c09Out, dedupe bool) (string, string) {
 		}
 		seen[o.In][o.Seq] = true
 		if p > 0 {
-			c := c09Cmp(cs.Cols, out[p-1].Key, o.Key)
+			c := c09CmpOut(cs.Cols, &out[p-1], &o)
 			if c > 0 {
-				return "not-sorted", fmt.Sprintf("output rows %d and %d are out of order: key %s (input %d row %d) before key %s (input %d row %d)", p-1, p, c09KeyTok(out[p-1].Key), out[p-1].In, out[p-1].Seq, c09KeyTok(o.Key), o.In, o.Seq)
+				return "not-sorted", fmt.Sprintf("output rows %d and %d are out of order: key %s (input %d row %d) before key %s (input %d row %d)", p-1, p, c09OutKeyText(cs.Cols, &out[p-1]), out[p-1].In, out[p-1].Seq, c09OutKeyText(cs.Cols, &o), o.In, o.Seq)
 			}
 			if dedupe && c == 0 {
 				return "duplicate-key", fmt.Sprintf("DropDuplicatedRows: key %s is emitted twice (output rows %d and %d)", c09KeyTok(o.Key), p-1, p)
@@ -787,6 +886,31 @@ func c09Predicate(cs *c09Case, out []c09Out, dedupe bool) (string, string) {
 			return "input-order-broken", fmt.Sprintf("input %d: row %d is emitted after row %d (output position %d)", o.In, o.Seq, last[o.In], p)
 		}
 		last[o.In] = o.Seq
+	}
+	if expected != nil {
+		// sorted on both sides: the keys agree position by position
+		lost := "row-lost"
+		if dedupe {
+			lost = "key-lost"
+		}
+		for p := 0; p < len(out) || p < len(expected); p++ {
+			c := 0
+			switch {
+			case p >= len(out):
+				c = 1
+			case p >= len(expected):
+				c = -1
+			default:
+				c = c09Cmp(cs.Cols, out[p].Key, expected[p])
+			}
+			if c > 0 {
+				return lost, fmt.Sprintf("no row with key %s at output position %d (%d rows out, %d expected: the keys of the rows of the inputs, one per distinct key where duplicates are dropped)", c09KeyTok(expected[p]), p, len(out), len(expected))
+			}
+			if c < 0 {
+				return "row-extra", fmt.Sprintf("output row %d (row %d of input %d) has key %s, which the inputs do not deliver that often (%d rows out, %d expected)", p, out[p].Seq, out[p].In, c09KeyTok(out[p].Key), len(out), len(expected))
+			}
+		}
+		return "", ""
 	}
 	if !dedupe {
 		if len(out) != total {
@@ -1016,6 +1140,9 @@ type c09GroupsInfo struct {
 	cuts      []bool      // per input: newCutLookups returns lookups for the first sorting column
 	converted int         // inputs that ConvertRowGroup wrapped (0 expected: same schema)
 	indexOdd  string      // an input whose column index and offset index disagree on the number of pages
+	// nested inputs (cs.Tree)
+	opaque []bool       // per input of the root merge: its rows are computed (c09Opaque)
+	inner  *c09NodeFail // a node below the root that does not deliver what it must
 }
 
 // c09Inspect reads the shape of the merged row group (unexported types, by reflection on type names only).
@@ -1289,30 +1416,15 @@ func c09CutsTok(cuts []bool) string {
 func c09BuildGroups(s *c09Schema, cs *c09Case) ([]parquet.RowGroup, int, error) {
 	var groups []parquet.RowGroup
 	maxPages := 0
-	for i, in := range cs.Inputs {
-		rows := s.rows(i, in)
-		if cs.backingOf(i) == "file" && len(rows) > 0 {
-			f, err := c09WriteFile(s, rows, cs.PageBuf)
-			if err != nil {
-				return nil, 0, fmt.Errorf("writing input %d: %w", i, err)
-			}
-			rgs := f.RowGroups()
-			if len(rgs) != 1 {
-				return nil, 0, fmt.Errorf("input file %d has %d row groups", i, len(rgs))
-			}
-			if ci, err := rgs[0].ColumnChunks()[s.keyLeaf[0]].ColumnIndex(); err == nil && ci != nil && ci.NumPages() > maxPages {
-				maxPages = ci.NumPages()
-			}
-			groups = append(groups, rgs[0])
-			continue
+	for i := range cs.Inputs {
+		rg, pages, err := c09BuildLeaf(s, cs, i)
+		if err != nil {
+			return nil, 0, err
 		}
-		b := parquet.NewBuffer(s.schema, parquet.SortingRowGroupConfig(parquet.SortingColumns(s.sorting...)))
-		if len(rows) > 0 {
-			if _, err := b.WriteRows(rows); err != nil {
-				return nil, 0, fmt.Errorf("buffering input %d: %w", i, err)
-			}
+		if pages > maxPages {
+			maxPages = pages
 		}
-		groups = append(groups, b)
+		groups = append(groups, rg)
 	}
 	return groups, maxPages, nil
 }
@@ -1322,8 +1434,33 @@ func c09BuildGroups(s *c09Schema, cs *c09Case) ([]parquet.RowGroup, int, error) 
 func c09Groups(s *c09Schema, cs *c09Case) (read, written []c09Out, info c09GroupsInfo, fail string) {
 	parquet.VerifSetDisableMergeRefinement(cs.NoRefine)
 	defer parquet.VerifSetDisableMergeRefinement(false)
-	groups, pages, err := c09BuildGroups(s, cs)
-	if err != nil {
+	var groups []parquet.RowGroup
+	var pages int
+	var err error
+	var nested []*c09Built
+	if cs.Tree != nil {
+		fb := &c09ForestBuilder{cs: cs, narrow: s, batch: 97}
+		if msg := c09Guard(func() {
+			for i := range cs.Tree {
+				b := fb.build(&cs.Tree[i], false, strconv.Itoa(i))
+				if b == nil {
+					return
+				}
+				nested = append(nested, b)
+				groups = append(groups, b.rg)
+				info.opaque = append(info.opaque, c09Opaque(b))
+			}
+		}); msg != "" && fb.fail == nil && fb.setup == nil {
+			fb.fail = &c09NodeFail{"merge-groups-failed", "building the inputs of the merge: panic: " + msg}
+		}
+		if fb.setup != nil {
+			return nil, nil, info, "setup: " + fb.setup.Error()
+		}
+		if fb.fail != nil {
+			info.inner = fb.fail
+			return nil, nil, info, ""
+		}
+	} else if groups, pages, err = c09BuildGroups(s, cs); err != nil {
 		return nil, nil, info, "setup: " + err.Error()
 	}
 	opt := parquet.SortingRowGroupConfig(parquet.SortingColumns(s.sorting...), parquet.DropDuplicatedRows(cs.Dedupe))
@@ -1333,8 +1470,9 @@ func c09Groups(s *c09Schema, cs *c09Case) (read, written []c09Out, info c09Group
 			fail = "MergeRowGroups: " + err.Error()
 			return
 		}
+		opaque := info.opaque
 		info = c09Inspect(merged)
-		info.pages = pages
+		info.pages, info.opaque = pages, opaque
 		rows := merged.Rows()
 		out, _, f := c09ReadAll(s, rows, cs.Batches)
 		rows.Close()
@@ -1344,7 +1482,9 @@ func c09Groups(s *c09Schema, cs *c09Case) (read, written []c09Out, info c09Group
 		}
 		read = c09Flat(out)
 		info.read = read
-		if !cs.Dedupe && merged.NumRows() != int64(len(read)) {
+		innerDedupe := map[string]bool{}
+		c09TreeOps(cs.Tree, innerDedupe)
+		if !cs.Dedupe && !innerDedupe["dedupe"] && merged.NumRows() != int64(len(read)) {
 			fail = fmt.Sprintf("NumRows() = %d but Rows() delivered %d rows", merged.NumRows(), len(read))
 			return
 		}
@@ -1379,7 +1519,11 @@ func c09Groups(s *c09Schema, cs *c09Case) (read, written []c09Out, info c09Group
 		eligible, tooBig := c09RefineEligible(cs)
 		info.tooBig = tooBig
 		if eligible {
-			info.plan, info.planBad, info.planErr = c09GoPlan(s, merged)
+			if cs.Tree != nil {
+				info.plan, info.planBad, info.planErr = c09GoPlanTop(s, merged, cs, nested)
+			} else {
+				info.plan, info.planBad, info.planErr = c09GoPlan(s, merged)
+			}
 			c09ProbeIndexes(s, groups, &info)
 			info.refine = true
 		}
@@ -1390,6 +1534,14 @@ func c09Groups(s *c09Schema, cs *c09Case) (read, written []c09Out, info c09Group
 }
 
 func c09RefineRequest(cs *c09Case, info *c09GroupsInfo) string {
+	if cs.Tree != nil {
+		// the inputs of the root merge: the keys their rows carry, and whether their rows are computed
+		ins := make([][]c09Key, len(cs.Tree))
+		for i := range cs.Tree {
+			ins[i], _ = c09NodeKeys(cs, &cs.Tree[i])
+		}
+		return fmt.Sprintf("c09.nrefine %s %s %s %s %s", c09CfgTok(cs.Cols), c09InputsTok(ins), c09LayoutsTok(info.layouts), c09CutsTok(info.cuts), c09CutsTok(info.opaque))
+	}
 	return fmt.Sprintf("c09.refine %s %s %s %s", c09CfgTok(cs.Cols), c09InputsTok(cs.Inputs), c09LayoutsTok(info.layouts), c09CutsTok(info.cuts))
 }
 
@@ -1409,12 +1561,22 @@ func c09CheckGroups(c *core.Ctx, cs *c09Case, info *c09GroupsInfo) bool {
 		c.Violation("merge-groups-failed", what+": "+fail, cs)
 		return false
 	}
-	if class, w := c09Predicate(cs, read, cs.Dedupe); class != "" {
+	predicate := func(out []c09Out) (string, string) { return c09Predicate(cs, out, cs.Dedupe) }
+	if cs.Tree != nil {
+		what = fmt.Sprintf("MergeRowGroups over the %d row groups %s (dedupe=%v, refinement disabled=%v)", len(cs.Tree), c09TreeTok(cs.Tree), cs.Dedupe, cs.NoRefine)
+		if inf.inner != nil {
+			c09Fail = "violation:inner:" + inf.inner.class
+			c.Violation(inf.inner.class, "input of "+what+": "+inf.inner.what, cs)
+			return false
+		}
+		predicate = func(out []c09Out) (string, string) { return c09TreePredicate(cs, cs.Tree, out, cs.Dedupe) }
+	}
+	if class, w := predicate(read); class != "" {
 		c09Fail = "violation:" + class
 		c.Violation(class, what+", rows of Rows(): "+w, cs)
 		return false
 	}
-	if class, w := c09Predicate(cs, written, cs.Dedupe); class != "" {
+	if class, w := predicate(written); class != "" {
 		c09Fail = "violation:written-" + class
 		c.Violation("written-"+class, what+", rows of the file written with WriteRowGroup: "+w, cs)
 		return false
@@ -1470,6 +1632,9 @@ func c09CheckGroups(c *core.Ctx, cs *c09Case, info *c09GroupsInfo) bool {
 var c09Fail string
 
 func c09PlanModelled(cs *c09Case) bool {
+	if cs.Tree != nil {
+		return false
+	}
 	if len(cs.Batches) != 1 || len(cs.Inputs) == 0 || len(cs.Inputs) > 12 {
 		return false
 	}
@@ -1499,6 +1664,9 @@ func c09Valid(cs *c09Case) bool {
 		}
 		names[x.Name] = true
 	}
+	if cs.Tree != nil && cs.Kind != "groups" {
+		return false
+	}
 	for _, in := range cs.Inputs {
 		for i, k := range in {
 			if len(k) != len(cs.Cols) {
@@ -1508,11 +1676,20 @@ func c09Valid(cs *c09Case) bool {
 				if v == nil && !cs.Cols[j].Optional {
 					return false
 				}
+				if col := cs.Cols[j]; v != nil && col.typed() {
+					kd := c09KindOf(col.Type)
+					if kd == nil || *v-col.Bias < kd.lo || *v-col.Bias > kd.hi {
+						return false
+					}
+				}
 			}
 			if i > 0 && c09Cmp(cs.Cols, in[i-1], k) > 0 {
 				return false
 			}
 		}
+	}
+	if cs.Tree != nil && !c09TreeValid(cs) {
+		return false
 	}
 	return true
 }
@@ -1560,6 +1737,7 @@ func c09Clone(cs *c09Case) *c09Case {
 	t.Backing = append([]string(nil), cs.Backing...)
 	t.Batches = append([]int(nil), cs.Batches...)
 	t.Extras = append([]c09Extra(nil), cs.Extras...)
+	t.Tree = c09CloneTree(cs.Tree)
 	return &t
 }
 
@@ -1571,6 +1749,9 @@ func c09DropInput(cs *c09Case, i int) *c09Case {
 	}
 	if i < len(t.Backing) {
 		t.Backing = append(t.Backing[:i], t.Backing[i+1:]...)
+	}
+	if t.Tree != nil {
+		t.Tree = c09TreeDropLeaf(t.Tree, i)
 	}
 	return t
 }
@@ -1613,6 +1794,25 @@ func c09Shrink(c *core.Ctx, cs *c09Case) *c09Case {
 					cur, changed = t, true
 					i--
 				}
+			}
+		}
+		// nested inputs: replace an inner node by its children; a forest of the inputs themselves is no forest
+		for again := cur.Tree != nil; again; {
+			again = false
+			for _, h := range c09TreeHoists(cur.Tree) {
+				t := c09Clone(cur)
+				t.Tree = h
+				if fails(t) {
+					cur, changed, again = t, true, true
+					break
+				}
+			}
+		}
+		if cur.Tree != nil && c09TreeFlat(cur) {
+			t := c09Clone(cur)
+			t.Tree = nil
+			if fails(t) {
+				cur, changed = t, true
 			}
 		}
 		// extra columns
@@ -1685,6 +1885,7 @@ var c09Stats struct {
 	compared, sliced, tooBig, converted     int
 	bufferCuts, bufferOnePage, bufferInputs int
 	indexOdd                                string
+	top, opaqueTop                          int // inputs of the root merge of the nested cases, those whose rows are computed
 }
 
 // c09RefineCase records the coverage of one plan comparison.
@@ -1693,6 +1894,17 @@ func c09RefineCase(c *core.Ctx, cs *c09Case, info *c09GroupsInfo, key string) {
 		c09Stats.tooBig++
 	}
 	if !info.refine {
+		return
+	}
+	if cs.Tree != nil {
+		c09Stats.compared++
+		bucket := "refine/nested(every input a buffer, a file or a conversion of one)"
+		for _, o := range info.opaque {
+			if o {
+				bucket = "refine/nested(an input with computed rows)"
+			}
+		}
+		c.Case(bucket, key, len(info.plan) > 0)
 		return
 	}
 	c09Stats.compared++
@@ -1815,6 +2027,12 @@ func c09Run(c *core.Ctx, cs *c09Case, bucket string) bool {
 	c.Case(bucket, string(key), nonEmpty >= 2 || (cs.Kind == "dedupe" && nonEmpty == 1))
 	if ok {
 		c09RefineCase(c, cs, &info, string(key))
+		for _, o := range info.opaque {
+			c09Stats.top++
+			if o {
+				c09Stats.opaqueTop++
+			}
+		}
 	}
 	return ok
 }
@@ -1861,6 +2079,20 @@ func c09MaybeExtras(c *core.Ctx, cs *c09Case, max int) *c09Case {
 	if c.Rng.Intn(3) == 0 {
 		cs.Extras, cs.ExtraSeed = c09GenExtras(c.Rng.Intn, max)
 	}
+	return cs
+}
+
+// c09MaybeKinds gives, in one case in p, each sorting column a random kind with probability 1/2
+// (at least one column).
+func c09MaybeKinds(c *core.Ctx, cs *c09Case, p int) *c09Case {
+	if c.Rng.Intn(p) != 0 || len(cs.Cols) == 0 {
+		return cs
+	}
+	kinds := c09RandomKinds(c.Rng.Intn, len(cs.Cols), 2)
+	if j := c.Rng.Intn(len(kinds)); kinds[j] == "" {
+		kinds[j] = c09KindNames[c.Rng.Intn(len(c09KindNames))]
+	}
+	cs.Cols = c09ApplyKinds(c.Rng.Intn, cs.Cols, kinds, cs.Inputs)
 	return cs
 }
 
@@ -2025,8 +2257,8 @@ func c09GenReaders(c *core.Ctx, k int) *c09Case {
 	if k > 4 {
 		lens = c09Lens[:len(c09Lens)-6]
 	}
-	return c09MaybeExtras(c, &c09Case{Kind: "readers", Cols: cols, Inputs: c09GenInputs(c, cols, k, pattern, lens), Chunks: c09GenChunks(c, k),
-		EOFData: c.Rng.Intn(4) == 0, Batches: c09GenBatches(c), Note: pattern}, 3)
+	return c09MaybeKinds(c, c09MaybeExtras(c, &c09Case{Kind: "readers", Cols: cols, Inputs: c09GenInputs(c, cols, k, pattern, lens), Chunks: c09GenChunks(c, k),
+		EOFData: c.Rng.Intn(4) == 0, Batches: c09GenBatches(c), Note: pattern}, 3), 4)
 }
 
 // ---- large file-backed inputs with ties at the page boundaries ---------------
@@ -2321,6 +2553,16 @@ func c09GenTie(intn func(int) int, shape string, desc bool) *c09Case {
 	if intn(4) == 0 {
 		cs.Extras, cs.ExtraSeed = c09GenExtras(intn, 2)
 	}
+	if intn(2) == 0 {
+		// the first sorting column of another kind of 8 bytes per value (the same page layout)
+		kinds := make([]string, len(cols))
+		kinds[0] = c09Wide64Names[intn(len(c09Wide64Names))]
+		if intn(3) == 0 {
+			kinds[1] = c09Wide64Names[intn(len(c09Wide64Names))]
+		}
+		cs.Cols = c09ApplyKinds(intn, cs.Cols, kinds, cs.Inputs)
+		cs.Note += " " + kinds[0]
+	}
 	return cs
 }
 
@@ -2395,7 +2637,7 @@ func c09GenBig(c *core.Ctx) *c09Case {
 	if c.Rng.Intn(4) == 0 {
 		cs.Extras, cs.ExtraSeed = c09GenExtras(c.Rng.Intn, 2)
 	}
-	return cs
+	return c09MaybeKinds(c, cs, 3)
 }
 
 // ---- cases.v ---------------------------------------------------------------
@@ -2449,7 +2691,7 @@ func c09VmCase(cs *c09Case, out [][]c09Out, used []int) string {
 // ---- main ------------------------------------------------------------------
 
 func runC09(c *core.Ctx) {
-	c.Res.Rule = "k = 0..9 sorted inputs generated from overlap patterns (random, disjoint, touching: max of one = min of the next, nested, identical, dense duplicates, chains, long runs; empty inputs; duplicate keys within and across inputs) over key configurations (one to three sorting columns, ascending/descending and mixed directions, required/optional with nulls first/last), input lengths around the buffer sizes 24/48/96/192, ReadRows slice lengths uniform in 1..64 or from {1,2,3,23,24,25,64,191,192,193} (1-3 of them, cycled) and scripted source chunkings. Row schema: a parquet.Group (fields ordered by name) with the sorting columns k0.., the payload p_in/p_seq/p_tag and, in one case in three (one in four of the large cases, all of the extras/ buckets), 1-3 extra non-key columns whose names place their leaves before the first sorting column, between k0 and k1, between the keys and the payload or after the payload, of the shapes required / optional / string leaf, repeated leaf, LIST (required and optional), group (required, optional, repeated: two leaves each) and a repeated leaf inside a repeated group; a row holds 0..3 values per repeated leaf (rep2: up to 4), so the index of a value within the row differs from its column index; the values are a function of (seed, input, seq) and every output row is checked value by value, levels included (row-mangled). extras/<shape>@<position>: every shape at every position through MergeRowReaders (2 and 3-6 readers), MergeRowGroups over buffers, over files, with DropDuplicatedRows, and DedupeRowReader. readers/turns, groups/turns: 2 and 3-7 inputs that take turns in runs of 1..40 rows (every run ends inside the buffered window, ties at one run start in three) read with every slice length 1..64 (run mode: runLength / emitRun). readers: parquet.MergeRowReaders over scripted in-memory readers, emitted (input,seq) batches == model (2-way: c09.merge2, k>2: c09.mergek); dedupe: parquet.DedupeRowReader == model; groups: parquet.MergeRowGroups over Buffers and files with small pages (refinement on and off), with and without DropDuplicatedRows, read through Rows() and written with WriteRowGroup then read back; large file-backed cases (2-4 inputs of 1100-5000 rows, PageBufferSize 256..4096 = pages of 50..550 rows): random chains (overlapping, touching, containing, disjoint) and, every other case and 10 fixed corpus cases, shapes built around the boundary cases of the cut lookups of merge_refine.go over two or three required int64 sorting columns (first ascending or descending, the later ones ascending or descending independently): tie-lower (A ends at (v, big) or with a long run of v; B has a run of v spanning several pages of its first column - after a random prefix below v, after a prefix that ends exactly at a page boundary so that a page starts at the first row with value v, or from its first row - with small second-column values, then a lone stretch of >= 1100 rows (sometimes 300-1200, around minStreamedRegionRows = 1024), optionally a third input starting at a long run of B's last value), tie-upper (B alone before C starts at (w, small), B with a run of w spanning pages), tie-chain (3-4 inputs each starting with a run of the previous one's last value), touching (max of one = min of the next), nested (a small row group inside a big one that has lone stretches on both sides, with runs of the small one's first / last value in the big one), identical first-column values everywhere; the arguments are shuffled. For every groups case without DropDuplicatedRows and with refinement enabled the plan Go built is compared with the model (corr:C09.refine, Merge/Refine.v c09_refine): the elements of rowGroupSegments (field `segments` of the *sortedSegmentRowGroup read with reflect+unsafe, or the merged row group itself as the single element) are read one by one through their own Rows() and turned into parts (input, first seq, rows) - the rows of an input inside an element must be an ascending contiguous range (plan-piece-not-a-range) - and must equal the model's pieces (parts sorted by input on both sides, order of the pieces kept); the model is given the keys, the page layout of every sorting column (offset index of the row groups as wrapped by ConvertRowGroup; a Buffer is one page) and whether newCutLookups yields lookups for the first sorting column (its conditions evaluated on the column chunk); buckets refine/plan-sliced (the Go plan contains a row-range part) / plan-unsliced, +tie-at-page-start / -end when a page of the first sorting column of an input starts (ends) with the first-column value of the last (first) row of another input. Failing large cases are shrunk with a small budget (120 probes, the first three of a run only), keeping the kind of failure. The property predicate (sorted, multiset = union with whole rows intact, per-input order; dedupe: one row per distinct key, each an input row) is evaluated on every output with the harness's own comparator. A case is one (inputs, scripts, options); non-trivial = at least two non-empty inputs (dedupe: one); distinct by the JSON of the case."
+	c.Res.Rule = "k = 0..9 sorted inputs generated from overlap patterns (random, disjoint, touching: max of one = min of the next, nested, identical, dense duplicates, chains, long runs; empty inputs; duplicate keys within and across inputs) over key configurations (one to three sorting columns, ascending/descending and mixed directions, required/optional with nulls first/last), input lengths around the buffer sizes 24/48/96/192, ReadRows slice lengths uniform in 1..64 or from {1,2,3,23,24,25,64,191,192,193} (1-3 of them, cycled) and scripted source chunkings. Row schema: a parquet.Group (fields ordered by name) with the sorting columns k0.., the payload p_in/p_seq/p_tag and, in one case in three (one in four of the large cases, all of the extras/ buckets), 1-3 extra non-key columns whose names place their leaves before the first sorting column, between k0 and k1, between the keys and the payload or after the payload, of the shapes required / optional / string leaf, repeated leaf, LIST (required and optional), group (required, optional, repeated: two leaves each) and a repeated leaf inside a repeated group; a row holds 0..3 values per repeated leaf (rep2: up to 4), so the index of a value within the row differs from its column index; the values are a function of (seed, input, seq) and every output row is checked value by value, levels included (row-mangled). extras/<shape>@<position>: every shape at every position through MergeRowReaders (2 and 3-6 readers), MergeRowGroups over buffers, over files, with DropDuplicatedRows, and DedupeRowReader. readers/turns, groups/turns: 2 and 3-7 inputs that take turns in runs of 1..40 rows (every run ends inside the buffered window, ties at one run start in three) read with every slice length 1..64 (run mode: runLength / emitRun). readers: parquet.MergeRowReaders over scripted in-memory readers, emitted (input,seq) batches == model (2-way: c09.merge2, k>2: c09.mergek); dedupe: parquet.DedupeRowReader == model; groups: parquet.MergeRowGroups over Buffers and files with small pages (refinement on and off), with and without DropDuplicatedRows, read through Rows() and written with WriteRowGroup then read back; large file-backed cases (2-4 inputs of 1100-5000 rows, PageBufferSize 256..4096 = pages of 50..550 rows): random chains (overlapping, touching, containing, disjoint) and, every other case and 10 fixed corpus cases, shapes built around the boundary cases of the cut lookups of merge_refine.go over two or three required int64 sorting columns (first ascending or descending, the later ones ascending or descending independently): tie-lower (A ends at (v, big) or with a long run of v; B has a run of v spanning several pages of its first column - after a random prefix below v, after a prefix that ends exactly at a page boundary so that a page starts at the first row with value v, or from its first row - with small second-column values, then a lone stretch of >= 1100 rows (sometimes 300-1200, around minStreamedRegionRows = 1024), optionally a third input starting at a long run of B's last value), tie-upper (B alone before C starts at (w, small), B with a run of w spanning pages), tie-chain (3-4 inputs each starting with a run of the previous one's last value), touching (max of one = min of the next), nested (a small row group inside a big one that has lone stretches on both sides, with runs of the small one's first / last value in the big one), identical first-column values everywhere; the arguments are shuffled. For every groups case without DropDuplicatedRows and with refinement enabled the plan Go built is compared with the model (corr:C09.refine, Merge/Refine.v c09_refine): the elements of rowGroupSegments (field `segments` of the *sortedSegmentRowGroup read with reflect+unsafe, or the merged row group itself as the single element) are read one by one through their own Rows() and turned into parts (input, first seq, rows) - the rows of an input inside an element must be an ascending contiguous range (plan-piece-not-a-range) - and must equal the model's pieces (parts sorted by input on both sides, order of the pieces kept); the model is given the keys, the page layout of every sorting column (offset index of the row groups as wrapped by ConvertRowGroup; a Buffer is one page) and whether newCutLookups yields lookups for the first sorting column (its conditions evaluated on the column chunk); buckets refine/plan-sliced (the Go plan contains a row-range part) / plan-unsliced, +tie-at-page-start / -end when a page of the first sorting column of an input starts (ends) with the first-column value of the last (first) row of another input. Failing large cases are shrunk with a small budget (120 probes, the first three of a run only), keeping the kind of failure. Kinds of sorting columns (types/<kind>: every kind as the first column ascending / descending, required / optional with nulls first / last, followed by a column of another kind, and as the second column behind a default column with few values; through MergeRowReaders with Schema.Comparator (2 and 3-6 readers), MergeRowGroups over buffers, files with small pages, with DropDuplicatedRows, and DedupeRowReader; one case in four of the random readers / turns / dedupe / groups / nested cases and one in three of the large random cases give each column a random kind with probability 1/2; every other large tie case gives the first (one in three: also the second) column a kind of 8 bytes per value): boolean, int32 (plain), INT(8/16/32/64), UINT(8/16/32/64), int64 (plain), float, double, byte array, STRING, ENUM, FIXED_LEN_BYTE_ARRAY(5), FIXED_LEN_BYTE_ARRAY(16), UUID, DATE, TIME(MILLIS/MICROS/NANOS), TIMESTAMP(MILLIS/MICROS/NANOS), DECIMAL on int32 / int64 / FIXED_LEN_BYTE_ARRAY(9) / FIXED_LEN_BYTE_ARRAY(16) / byte array. A key stays a tuple of integers (the ordinals the model compares); a column of kind K holds emb_K(ordinal - bias), emb_K strictly increasing from at most [-32768, 32767] into the values of K in the order of the parquet format (signed; unsigned for UINT; IEEE numeric for float / double, no NaN, the zero written as -0 in every other row; unsigned lexicographic bytes, a proper prefix first; signed big-endian two's complement for DECIMAL on bytes, 3..8 bytes on byte arrays) and spread over the whole width: ordinal * 2^16 (2^48) plus hashed low bits for 32 (64) bit integers, negative ordinals to negative values / to the lower half of the unsigned range / to bytes below 0x80, float bit patterns from subnormals to 3e38 (1e308), times of day over the whole day (neighbouring TIME(NANOS) ordinals differ above bit 30), byte strings of 2..23 bytes (longer than the 16 bytes a column index keeps), the two halves of 16-byte values both significant; the bias is an ordinal present in the case (three times in four), the ordinals are clamped into the domain of the kind (boolean: two values). types.go checks at start, exhaustively over every domain, that emb_K is strictly increasing for the harness comparator and survives parquet.Value. Every output row is decoded to Go values (Value.Int32 / Int64 / Float / Double / Boolean / ByteArray), must be bit for bit the value written in that row (row-mangled), and the sortedness is decided by the harness comparator on those values (not Type.Compare). Nested inputs (nested/depth=N, corpus/nested): the inputs of MergeRowGroups given as a forest over the sorted inputs of the case - merge (MergeRowGroups of the children), dedupe (with DropDuplicatedRows), multi (MultiRowGroup of consecutive pieces of one sorted sequence), convert (ConvertRowGroup to the schema of the merge of a subtree built in a wider schema: two more columns, one before the sorting columns), wide (that subtree handed over as it is) - one to three levels, 2-4 roots, leaves buffers or files, with and without DropDuplicatedRows / refinement at the root; corpus: merge(merge(A[0..99],B[40..59]),C[70..79]) (4f9d711) in nine shapes over buffers and files. Every node is read through its own Rows() and checked: a leaf / multi node delivers the rows written in order, a merge / dedupe node and the root (Rows() and the file written with WriteRowGroup) satisfy the statement at the level of the leaves: sorted, whole rows of the leaves below, none twice, every leaf's rows in their order, keys = the keys the inputs must deliver (one per distinct key under a dedupe). The plan of the root (without DropDuplicatedRows, refinement enabled) is compared with the model (corr:C09.refine, c09.nrefine = Merge/Nested.v c09_refine_nested): the harness tells the model which inputs have computed rows (dynamic type not a Buffer / FileRowGroup / row-range view / conversion of one) - then one element holding every input whole - and otherwise the model is c09_refine. The property predicate (sorted, multiset = union with whole rows intact, per-input order; dedupe: one row per distinct key, each an input row) is evaluated on every output with the harness's own comparator. A case is one (inputs, scripts, options); non-trivial = at least two non-empty inputs (dedupe: one); distinct by the JSON of the case."
 
 	var vm []string
 	vmRows := 0
@@ -2471,6 +2713,10 @@ func runC09(c *core.Ctx) {
 		}
 		vm = append(vm, c09VmCase(cs, out, used))
 		vmRows++
+	}
+
+	if msg := c09KindsSelfTest(); msg != "" {
+		panic("C09 harness self-test (types.go): " + msg)
 	}
 
 	// ---- corpus first: the defect repaired by 77fc8c6 and hand-made shapes
@@ -2592,6 +2838,89 @@ func runC09(c *core.Ctx) {
 		}
 	}
 
+	// ---- every kind of sorting column (types.go): first column ascending / descending, required / optional,
+	// followed by a column of another kind, or second behind a default column, through every kind of merge
+	for ki, name := range c09KindNames {
+		for v := 0; v < c.N(10, 60); v++ {
+			rb := func() bool { return c.Rng.Intn(2) == 0 }
+			var cols []c09Col
+			kinds := []string{name}
+			swap := false
+			switch v % 5 {
+			case 0:
+				cols = []c09Col{{}}
+			case 1:
+				cols = []c09Col{{Desc: true}}
+			case 2:
+				cols = []c09Col{{Optional: true, Desc: rb(), NullsFirst: rb()}}
+			case 3:
+				cols = []c09Col{{Desc: rb()}, {Desc: rb(), Optional: c.Rng.Intn(3) == 0}}
+				kinds = append(kinds, c09KindNames[c.Rng.Intn(len(c09KindNames))])
+			default:
+				// generated as (kind, default), then the two columns change places: the first column has few values
+				cols = []c09Col{{Desc: rb()}, {Desc: rb()}}
+				swap = true
+			}
+			pattern := []string{"random", "nested", "chain", "touching", "runs", "disjoint", "identical"}[c.Rng.Intn(7)]
+			lens := c09Lens[4 : len(c09Lens)-6]
+			cs := &c09Case{Cols: cols, Batches: c09GenBatches(c), Note: pattern}
+			gen := func(k int) {
+				cs.Inputs = c09GenInputs(c, cols, k, pattern, lens)
+				if swap {
+					cs.Cols = []c09Col{cols[1], cols[0]}
+					kinds = []string{"", name}
+					for _, in := range cs.Inputs {
+						for r, key := range in {
+							in[r] = c09Key{key[1], key[0]}
+						}
+						c09SortKeys(cs.Cols, in)
+					}
+				}
+				cs.Cols = c09ApplyKinds(c.Rng.Intn, cs.Cols, kinds, cs.Inputs)
+			}
+			switch (v%5 + 3*(v/5) + ki) % 6 {
+			case 0:
+				cs.Kind = "readers"
+				gen(2)
+			case 1:
+				cs.Kind = "readers"
+				gen(3 + c.Rng.Intn(4))
+				cs.Chunks = c09GenChunks(c, 6)
+			case 2:
+				cs.Kind = "groups"
+				gen(2 + c.Rng.Intn(3))
+			case 3:
+				cs.Kind, cs.PageBuf = "groups", []int{64, 128, 300}[c.Rng.Intn(3)]
+				gen(2 + c.Rng.Intn(3))
+				for range cs.Inputs {
+					cs.Backing = append(cs.Backing, "file")
+				}
+			case 4:
+				cs.Kind, cs.Dedupe, cs.PageBuf = "groups", true, 128
+				gen(2 + c.Rng.Intn(3))
+				for range cs.Inputs {
+					cs.Backing = append(cs.Backing, []string{"buffer", "file"}[c.Rng.Intn(2)])
+				}
+			default:
+				cs.Kind = "dedupe"
+				pattern = "dense"
+				gen(1)
+				cs.Chunks = c09GenChunks(c, 1)
+			}
+			if cs.Kind == "groups" {
+				cs.Batches = cs.Batches[:1]
+				cs.NoRefine = c.Rng.Intn(4) == 0
+			}
+			if c.Rng.Intn(5) == 0 {
+				cs.Extras, cs.ExtraSeed = c09GenExtras(c.Rng.Intn, 2)
+			}
+			c09Run(c, cs, "types/"+name)
+			if name == "time(ns)" && v == 0 {
+				c.Sample(cs)
+			}
+		}
+	}
+
 	// ---- run mode: inputs that take turns in runs of 1..40 rows, slice lengths 1..64
 	nRuns := c.N(1500, 15000)
 	for i := 0; i < nRuns; i++ {
@@ -2626,6 +2955,7 @@ func runC09(c *core.Ctx) {
 		if c.Rng.Intn(6) == 0 {
 			cs.Extras, cs.ExtraSeed = c09GenExtras(c.Rng.Intn, 2)
 		}
+		c09MaybeKinds(c, cs, 4)
 		c09Run(c, cs, bucket)
 		if i%97 == 0 {
 			addVm(cs)
@@ -2661,11 +2991,12 @@ func runC09(c *core.Ctx) {
 		pattern := []string{"dense", "runs", "identical", "random"}[c.Rng.Intn(4)]
 		cs := c09MaybeExtras(c, &c09Case{Kind: "dedupe", Cols: cols, Inputs: c09GenInputs(c, cols, 1, pattern, c09Lens), Chunks: c09GenChunks(c, 1),
 			EOFData: c.Rng.Intn(4) == 0, Batches: c09GenBatches(c), Note: pattern}, 3)
+		c09MaybeKinds(c, cs, 4)
 		c09Run(c, cs, "dedupe")
 	}
 
 	// ---- row groups: small inputs
-	nGroups := c.N(3000, 30000)
+	nGroups := c.N(2400, 30000)
 	fired := 0
 	for i := 0; i < nGroups; i++ {
 		k := c.Rng.Intn(10)
@@ -2678,6 +3009,7 @@ func runC09(c *core.Ctx) {
 			cs.Batches = cs.Batches[:1]
 		}
 		c09MaybeExtras(c, cs, 3)
+		c09MaybeKinds(c, cs, 4)
 		mode := c.Rng.Intn(3)
 		for j := 0; j < k; j++ {
 			b := "buffer"
@@ -2695,6 +3027,95 @@ func runC09(c *core.Ctx) {
 			c.Sample(cs)
 		}
 	}
+
+	// ---- nested inputs (nested.go): merged, merged + deduplicated, MultiRowGroup, ConvertRowGroup wrappers and
+	// row groups of a wider schema as inputs of MergeRowGroups, one to three levels.
+	// Corpus: the defect repaired by 4f9d711, merge(merge(A[0..99], B[40..59]), C[70..79])
+	{
+		span := func(lo, hi int) []c09Key {
+			var ks []c09Key
+			for v := lo; v <= hi; v++ {
+				ks = append(ks, c09K(v))
+			}
+			return ks
+		}
+		lf := func(i int) c09Node { return c09Node{Op: "leaf", Leaf: i} }
+		op := func(o string, kids ...c09Node) c09Node { return c09Node{Op: o, Kids: kids} }
+		abc := [][]c09Key{span(0, 99), span(40, 59), span(70, 79)}
+		for n, tree := range [][]c09Node{
+			{op("merge", lf(0), lf(1)), lf(2)},
+			{lf(2), op("merge", lf(1), lf(0))},
+			{op("dedupe", lf(0), lf(1)), lf(2)},
+			{op("merge", op("merge", lf(0), lf(1))), lf(2)},
+			{op("merge", op("merge", op("merge", lf(0), lf(1)), lf(2)))},
+			{op("convert", op("merge", lf(0), lf(1))), lf(2)},
+			{op("wide", op("merge", lf(0), lf(1))), lf(2)},
+			{op("multi", lf(1), lf(2)), lf(0)},
+			{op("merge", op("multi", lf(1), lf(2)), lf(0))},
+		} {
+			for _, backing := range []string{"buffer", "file"} {
+				cs := &c09Case{Kind: "groups", Cols: req, Inputs: abc, Tree: tree, Batches: []int{64}, Backing: []string{backing, backing, backing}, PageBuf: 128, Note: "regression 4f9d711"}
+				c09Run(c, cs, "corpus/nested")
+				if n == 0 && backing == "buffer" {
+					c.Sample(cs)
+				}
+			}
+		}
+	}
+	// the defect repaired by cc06321: DropDuplicatedRows over a single input that is a merged row group of an earlier call
+	{
+		dup := [][]c09Key{{c09K(1), c09K(2), c09K(2), c09K(3)}, {c09K(2), c09K(3), c09K(3), c09K(4)}, {}}
+		lf := func(i int) c09Node { return c09Node{Op: "leaf", Leaf: i} }
+		m01 := c09Node{Op: "merge", Kids: []c09Node{lf(0), lf(1)}}
+		for _, cs := range []*c09Case{
+			{Tree: []c09Node{m01, lf(2)}, Dedupe: true},
+			{Tree: []c09Node{lf(2), {Op: "dedupe", Kids: []c09Node{m01}}}},
+			{Tree: []c09Node{{Op: "dedupe", Kids: []c09Node{{Op: "convert", Kids: []c09Node{m01}}, lf(2)}}}},
+			{Tree: []c09Node{{Op: "merge", Kids: []c09Node{m01}}, lf(2)}, Dedupe: true},
+		} {
+			cs.Kind, cs.Cols, cs.Inputs, cs.Batches, cs.Note = "groups", req, dup, []int{3}, "regression cc06321"
+			c09Run(c, cs, "corpus/nested")
+		}
+	}
+	nNested := c.N(500, 8000)
+	nestedOps := map[string]int{}
+	for i := 0; i < nNested; i++ {
+		cols := c09ColConfigs[c.Rng.Intn(len(c09ColConfigs))]
+		pattern := c09Patterns[c.Rng.Intn(len(c09Patterns))]
+		lens := c09Lens[:len(c09Lens)-6]
+		var stock [][]c09Key
+		pool := func() []c09Key {
+			if len(stock) == 0 {
+				stock = c09GenInputs(c, cols, 8, pattern, lens)
+			}
+			ks := stock[0]
+			stock = stock[1:]
+			return ks
+		}
+		cs := &c09Case{Kind: "groups", Cols: cols, Batches: c09GenBatches(c)[:1], PageBuf: []int{0, 64, 128, 300}[c.Rng.Intn(4)],
+			Dedupe: c.Rng.Intn(4) == 0, NoRefine: c.Rng.Intn(4) == 0, Note: pattern}
+		cs.Tree = c09GenForest(c.Rng.Intn, pool, &cs.Inputs, 1+c.Rng.Intn(3))
+		mode := c.Rng.Intn(3)
+		for range cs.Inputs {
+			b := "buffer"
+			if mode == 1 || (mode == 2 && c.Rng.Intn(2) == 0) {
+				b = "file"
+			}
+			cs.Backing = append(cs.Backing, b)
+		}
+		c09MaybeExtras(c, cs, 2)
+		c09MaybeKinds(c, cs, 4)
+		ops := map[string]bool{}
+		c09TreeOps(cs.Tree, ops)
+		for o := range ops {
+			nestedOps[o]++
+		}
+		c09Run(c, cs, c09ForestBucket(cs))
+		if i < 2 {
+			c.Sample(cs)
+		}
+	}
+	c.Note("nested inputs: %d cases; cases with a node of each operator: %v; inputs of the root merge whose rows are computed (not those of their column chunks): %d of %d", nNested, nestedOps, c09Stats.opaqueTop, c09Stats.top)
 
 	// ---- row groups: large file-backed inputs with small pages (refinement path), refined and unrefined plans.
 	// Every other case is built around the boundary cases of the cut lookups (c09GenTie).
